@@ -111,6 +111,7 @@ func loadCorpus(c *Ctx, id string, opts CheckOpts) []*Prog {
 			panic(fmt.Sprintf("corpus %s: reference interpreter: stuck=%q fuel=%v", f, r.Stuck, r.Fuel))
 		}
 		p.Hazard = ""
+		p.OmitParens = strings.Contains(filepath.Base(f), "noparens")
 		ps = append(ps, p)
 		c.Count("corpus_programs")
 	}
